@@ -30,6 +30,7 @@ type DispatchCase struct {
 	Dir    int    `json:"dir"`
 	Enc    string `json:"enc"`
 	Expect string `json:"expect"`
+	Status int    `json:"status"` // op cases, responses: result status of the item
 	// objsrc cases
 	Carrier string `json:"carrier"`
 	Field   int    `json:"field"`
@@ -281,7 +282,10 @@ func TestDispatch(t *testing.T) {
 				}
 				kids := []*refwire.Item{enumItem(kmip.TagOperation, uint32(code))}
 				if c.Dir != 1 {
-					kids = append(kids, enumItem(kmip.TagResultStatus, 0))
+					kids = append(kids, enumItem(kmip.TagResultStatus, uint32(c.Status)))
+					if c.Status == 1 {
+						kids = append(kids, enumItem(kmip.TagResultReason, uint32(kmip.ResultReasonGeneralFailure)))
+					}
 				}
 				kids = append(kids, payload)
 				bin := message(c.Dir, structItem(kmip.TagBatchItem, kids...))
